@@ -21,6 +21,11 @@ CONFIGS = {
     "v5": ("asan0", ["MON_VARIANT=5"]),                # void + state/action/control switches (C13)
     "lazy5": ("cl0", ["MON_VARIANT=5", "MON_LAZY=1"]),
     "all5": ("cl0", ["MON_VARIANT=5", "MON_CTRL=3"]),
+    # input classes / buffering (C07): plain recording actions, no frame monitor
+    "bufA1": ("asan0", ["MON_BUF", "MON_BUFSET=0", "MON_VARIANT=1"]),
+    "bufA3": ("asan0", ["MON_BUF", "MON_BUFSET=0", "MON_VARIANT=3"]),
+    "bufB1": ("asan0", ["MON_BUF", "MON_BUFSET=1", "MON_VARIANT=1"]),
+    "ana": ("cl0", ["MON_ANA", "MON_VARIANT=0"]),      # analyze< G >() + fuel-limited monitored run on reference loop witnesses (C11)
     "lazy1": ("cl0", ["MON_VARIANT=1", "MON_LAZY=1"]),
     "lazy3": ("cl0", ["MON_VARIANT=3", "MON_LAZY=1"]),
     "plain": ("cl0", ["MON_PLAIN", "MON_VARIANT=0"]),  # nothing/normal, 4 apply x rewind combinations
@@ -49,6 +54,8 @@ SIZES = {
     "act": (80, 800),
     "tree": (60, 600),
     "state": (100, 1000),
+    "cyc": (900, 0),
+    "buf": (100, 800),
     "chain": (0, 0),
 }
 
